@@ -38,6 +38,9 @@ static size_t u5_gen_rec(u5key *out, size_t pos, uint8_t *cur, size_t len, size_
 }
 static size_t u5_gen(u5key *out, size_t maxlen) { uint8_t cur[4]; return u5_gen_rec(out, 0, cur, 0, maxlen); }  /* 31 for L=2, 156 for L=3 */
 
+/* universe 16: all strings of length 3..4 over {00,01,fe,ff} (for the 16-bit branch of the shortest-separator computation: carries, adjacent bytes) */
+static size_t u16_gen(u5key *out) { static const uint8_t A[4] = { 0x00, 0x01, 0xfe, 0xff }; size_t n = 0; for (int len = 3; len <= 4; len++) { int total = 1; for (int i = 0; i < len; i++) total *= 4; for (int x = 0; x < total; x++) { int y = x; for (int i = len - 1; i >= 0; i--) { out[n].b[i] = A[y % 4]; y /= 4; } out[n].n = len; n++; } } /* sort */ for (size_t i = 1; i < n; i++) { u5key t = out[i]; size_t j = i; while (j > 0 && vh_bscmp(out[j - 1].b, out[j - 1].n, t.b, t.n) > 0) { out[j] = out[j - 1]; j--; } out[j] = t; } return n; }
+
 /* value synthesis: deterministic bytes from (tag, len) */
 static uint8_t *tbl_val(uint32_t tag, size_t len) {
 	uint8_t *v = malloc(len + 1);
